@@ -27,6 +27,7 @@ static struct {
     ABT_mutex m;
     ABT_cond cv;
     int holder;
+    int recursive;
     int H, L, c_min, c_max, returns, timeouts;
     int pend_sig, pend_bc; /* outside-the-mutex signals/broadcasts in flight */
     unsigned long regs;
@@ -146,6 +147,13 @@ static void do_wait(wl_actor *a, int dl_kind, int arg)
     /* returns holding the mutex */
     SIM_CHECK(S.holder == -1, "cond:returned-without-mutex", "wait of actor %d returned while actor %d holds the mutex", a->id, S.holder);
     S.holder = a->id;
+    if (S.recursive) {
+        /* holding a recursive mutex means being recorded as its owner: a nested trylock by the
+         * waiter must succeed */
+        int rc = ABT_mutex_trylock(S.m);
+        SIM_CHECK(rc == ABT_SUCCESS, "cond:returned-without-ownership", "actor %d returned from a wait on a recursive mutex, but its nested ABT_mutex_trylock returned %d", a->id, rc);
+        ABT_OK(ABT_mutex_unlock(S.m));
+    }
     expire();
     w->returned = 1;
     S.H--;
@@ -246,7 +254,16 @@ static void run_cond(int timed_mode)
     wl_rt_start(rt, WL_RT_NO_TOPO2);
     sim_allow_faults((1u << SIM_F_FUTEX_SPURIOUS) | (1u << SIM_F_COND_SPURIOUS) | (1u << SIM_F_NANOSLEEP_EARLY) | (1u << SIM_F_STALL) | (1u << SIM_F_SLOW_NODE) |
                      (1u << SIM_F_TARGET_DELAY) | (timed_mode ? (1u << SIM_F_CLOCK_JUMP) : 0));
-    ABT_OK(ABT_mutex_create(&S.m));
+    S.recursive = plan_n(3) == 0;
+    if (S.recursive) {
+        ABT_mutex_attr at;
+        ABT_OK(ABT_mutex_attr_create(&at));
+        ABT_OK(ABT_mutex_attr_set_recursive(at, ABT_TRUE));
+        ABT_OK(ABT_mutex_create_with_attr(at, &S.m));
+        ABT_OK(ABT_mutex_attr_free(&at));
+        sim_note("recursive-mutex ");
+    } else
+        ABT_OK(ABT_mutex_create(&S.m));
     ABT_OK(ABT_cond_create(&S.cv));
     int n = plan_range(2, sim_limit("actors", 6));
     int maxops = sim_limit("ops", 4);
